@@ -90,7 +90,9 @@ Definition viol_case (c : pcase) : list N :=
      map must return the name too *)
   (if okp && oks && isSome (g_values c) && negb (nodupb (tag_names (cp c))) && no_anon (cp c)
       && beq (replace_tags (vals_or_empty (g_values c)) (cp c)) (cs c)
-      && negb (beq (g_repl c) (cs c)) then [10] else []).
+      && negb (beq (g_repl c) (cs c)) then [10] else []) ++
+  (* 11: a pattern that Pattern.IsValid rejects was accepted at registration (Mux.Handle did not panic) *)
+  (if g_reg c && negb okp then [11] else []).
 
 Fixpoint run_idx {A} (f : A -> list N) (i : N) (cs : list A) : list (N * N) :=
   match cs with
